@@ -90,8 +90,9 @@ class _FuseReluClipBase(RewriteRuleClassBase, abc.ABC):
             MatchResult:
                 Success if we need to replace the pattern, Failure otherwise.
         """
-        del context  # Unused
         check_result = MatchResult()
+        if context.model.opset_imports.get("", 11) < 11:
+            return check_result.fail("Clip carries min/max as attributes before opset 11.")
 
         # Check if Clip min/max are not graph inputs and are constant values
         clip_min_max = []
